@@ -67,6 +67,9 @@ struct WorkerInput {
     process: ProcessPlan,
     record_log: bool,
     return_all_outcomes: bool,
+    /// the directory TMPDIR points to for this run: must look the same after the calls
+    #[serde(default)]
+    tmp_dir: Option<String>,
 }
 
 #[derive(Debug, Clone, Serialize, Deserialize)]
@@ -96,6 +99,10 @@ pub struct WorkerOutput {
     pub env_changed: Vec<String>,
     pub cwd_changed: bool,
     pub new_files: Vec<String>,
+    #[serde(default)]
+    pub new_files_in_tmp: Vec<String>,
+    #[serde(default)]
+    pub panic_hook_replaced: bool,
     pub entropy_requests: u64,
     pub realtime_reads: u64,
     pub formatter_spawns: u64,
@@ -154,6 +161,24 @@ fn list_dir(dir: &std::path::Path) -> Vec<String> {
     v
 }
 
+fn list_tree(dir: &std::path::Path) -> Vec<String> {
+    let mut out = Vec::new();
+    let mut stack = vec![dir.to_path_buf()];
+    while let Some(d) = stack.pop() {
+        if let Ok(rd) = std::fs::read_dir(&d) {
+            for e in rd.filter_map(|e| e.ok()) {
+                let p = e.path();
+                out.push(p.strip_prefix(dir).unwrap_or(&p).to_string_lossy().into_owned());
+                if p.is_dir() {
+                    stack.push(p);
+                }
+            }
+        }
+    }
+    out.sort();
+    out
+}
+
 pub fn proc_main() -> i32 {
     let mut text = String::new();
     if std::io::stdin().read_to_string(&mut text).is_err() {
@@ -183,6 +208,8 @@ fn run_process(input: &WorkerInput) -> WorkerOutput {
         .collect();
     let cwd_before = std::env::current_dir().ok();
     let files_before = cwd_before.as_deref().map(list_dir).unwrap_or_default();
+    let tmp_before = input.tmp_dir.as_deref().map(|d| list_tree(std::path::Path::new(d))).unwrap_or_default();
+    let hook_ok_before = crate::panic_hook_is_ours();
 
     let n = p.threads.len();
     let sched = Arc::new(Sched::new(n, &p.sched, input.record_log));
@@ -316,6 +343,13 @@ fn run_process(input: &WorkerInput) -> WorkerOutput {
         .filter(|f| !files_before.contains(f))
         .cloned()
         .collect();
+    let tmp_after = input.tmp_dir.as_deref().map(|d| list_tree(std::path::Path::new(d))).unwrap_or_default();
+    let new_files_in_tmp: Vec<String> = tmp_after
+        .iter()
+        .filter(|f| !tmp_before.contains(f))
+        .cloned()
+        .collect();
+    let panic_hook_replaced = hook_ok_before && !crate::panic_hook_is_ours();
     let mut results = results.lock().unwrap().clone();
     results.sort_by_key(|r| (r.tid, r.qidx));
     let mut hasher = Hasher(report.log_hash);
@@ -342,6 +376,8 @@ fn run_process(input: &WorkerInput) -> WorkerOutput {
         env_changed,
         cwd_changed: cwd_before != cwd_after,
         new_files,
+        new_files_in_tmp,
+        panic_hook_replaced,
         entropy_requests: seams::ENTROPY_REQUESTS_SIM.load(Ordering::Relaxed),
         realtime_reads: seams::REALTIME_READS.load(Ordering::Relaxed),
         formatter_spawns: spawns.load(Ordering::Relaxed),
@@ -421,7 +457,13 @@ fn spawn_worker(scratch: &Scratch, input: &WorkerInput) -> Result<WorkerOutput, 
         .stdin(std::process::Stdio::piped())
         .stdout(std::process::Stdio::piped())
         .stderr(std::process::Stdio::piped());
+    if let Some(tmp) = &input.tmp_dir {
+        cmd.env("TMPDIR", tmp);
+    }
     for (k, v) in &input.process.env {
+        if k == "TMPDIR" && input.tmp_dir.is_some() {
+            continue;
+        }
         cmd.env(k, scratch.expand(v));
     }
     // the worker must find the repository's shader files whatever its environment is
@@ -476,14 +518,23 @@ fn golden_for(scratch: &Scratch, golden: &Golden, job: &Job) -> Result<Outcome, 
     if let Some(o) = golden.lock().unwrap().get(job) {
         return Ok(o.clone());
     }
+    // a pristine process starts with an empty temp dir of its own
+    static GOLDEN_COUNTER: AtomicU64 = AtomicU64::new(0);
+    let tmp = scratch
+        .root
+        .join(format!("golden-tmp-{}", GOLDEN_COUNTER.fetch_add(1, Ordering::Relaxed)));
+    let _ = std::fs::create_dir_all(&tmp);
     let input = WorkerInput {
         pool: vec![job.clone()],
         golden: vec![0],
         process: pristine_process(1),
         record_log: false,
         return_all_outcomes: true,
+        tmp_dir: Some(tmp.to_string_lossy().into_owned()),
     };
-    let out = spawn_worker(scratch, &input)?;
+    let out = spawn_worker(scratch, &input);
+    let _ = std::fs::remove_dir_all(&tmp);
+    let out = out?;
     let outcome = out
         .results
         .first()
@@ -515,7 +566,6 @@ const ENV_MENU: &[(&str, &[&str])] = &[
     ("CARGO_MANIFEST_DIR", &["$SCRATCH/deep", "/nonexistent/project"]),
     ("OUT_DIR", &["$SCRATCH/tmp", "/nonexistent/out"]),
     ("HOME", &["$SCRATCH/decoy", "/root"]),
-    ("TMPDIR", &["$SCRATCH/tmp"]),
     ("LANG", &["de_DE.UTF-8", "tr_TR.UTF-8"]),
     ("LC_ALL", &["tr_TR.UTF-8", "C"]),
     ("TZ", &["Pacific/Kiritimati", "America/St_Johns"]),
@@ -722,6 +772,19 @@ fn execute(scratch: &Scratch, golden: &Golden, plan: &RunPlan, record: bool) -> 
     let mut hasher = Hasher::default();
     let mut logs = Vec::new();
     let mut jobs_seen_in_processes: Vec<HashSet<usize>> = Vec::new();
+    // One temp dir per run, shared by the run's processes (what one leaves behind, the next finds).
+    static RUN_COUNTER: AtomicU64 = AtomicU64::new(0);
+    let run_tmp = scratch
+        .root
+        .join(format!("run-tmp-{}", RUN_COUNTER.fetch_add(1, Ordering::Relaxed)));
+    let _ = std::fs::create_dir_all(&run_tmp);
+    struct RemoveDir(PathBuf);
+    impl Drop for RemoveDir {
+        fn drop(&mut self) {
+            let _ = std::fs::remove_dir_all(&self.0);
+        }
+    }
+    let _cleanup = RemoveDir(run_tmp.clone());
     // Simulated processes run one after the other: the only state they can share is the file
     // system, and leftovers of an earlier process are part of the later one's history.
     for (pi, process) in plan.processes.iter().enumerate() {
@@ -731,6 +794,7 @@ fn execute(scratch: &Scratch, golden: &Golden, plan: &RunPlan, record: bool) -> 
             process: process.clone(),
             record_log: record,
             return_all_outcomes: false,
+            tmp_dir: Some(run_tmp.to_string_lossy().into_owned()),
         };
         let out = spawn_worker(scratch, &input)?;
         if let Some(abort) = &out.abort {
@@ -828,6 +892,26 @@ fn execute(scratch: &Scratch, golden: &Golden, plan: &RunPlan, record: bool) -> 
                 class: "state_modified:cwd".into(),
                 process: pi,
                 detail: "working directory changed by the calls".into(),
+                job: None,
+                expected: None,
+                actual: None,
+            });
+        }
+        if !out.new_files_in_tmp.is_empty() {
+            divergences.push(Divergence {
+                class: "state_modified:files_in_temp_dir".into(),
+                process: pi,
+                detail: format!("files left behind in the temp dir: {:?}", out.new_files_in_tmp.iter().take(6).collect::<Vec<_>>()),
+                job: None,
+                expected: None,
+                actual: None,
+            });
+        }
+        if out.panic_hook_replaced {
+            divergences.push(Divergence {
+                class: "state_modified:panic_hook".into(),
+                process: pi,
+                detail: "after all calls returned, a panic no longer reaches the panic hook that was installed before the calls".into(),
                 job: None,
                 expected: None,
                 actual: None,
